@@ -57,7 +57,7 @@ func notFoundDiscipline(c *eng.Ctx, rule string) {
 				what := ""
 				if v, isNil, isN := cond.NilCheck(); isN && isNil {
 					if lk, isLk := eng.Origin(v).(*ssa.Lookup); isLk {
-						if fr, _, isF := eng.LoadedField(lk.X); isF && fr.Is("db", "kv", "secrets") {
+						if fr, _, isF := eng.LoadedField(lk.X); isF && isKVRole(curProg, fr, "secrets") {
 							what = "secret absent"
 						}
 					}
